@@ -1170,7 +1170,7 @@ func (x *Exec) runBlock(fr *Frame, b *ssa.BasicBlock, pred *ssa.BasicBlock, st *
 			// weakening: quantified facts from before the loop are dropped; the invariants must carry what the body needs
 			var keep []*Term
 			for _, a := range st.pc {
-				if !a.hasQ {
+				if !a.hasQ || st.keep[a.id] {
 					keep = append(keep, a)
 				}
 			}
